@@ -23,7 +23,7 @@ func TestMain(m *testing.M) {
 		if err := json.Unmarshal(raw, &c); err != nil {
 			return err
 		}
-		s, err := sim.RunCase(c, env.Options{}, sim.Hooks{})
+		s, err := sim.RunCase(c, optsFor(c), sim.Hooks{})
 		if s != nil {
 			s.Close()
 		}
@@ -213,6 +213,13 @@ var profile = sim.Profile{
 	Signed:     true,
 }
 
+// optsFor: half of the histories run with a block cache of only 2, 3 or 5 blocks (a fixed function of the history,
+// so that a replay uses the same), so that blocks fall out of the cache while they are still waiting to be written
+// and reorganisations reach below what is cached.
+func optsFor(c sim.Case) env.Options {
+	return env.Options{MaxCached: []int{0, 0, 0, 2, 3, 5}[(len(c.Ops)+c.Params.Prefix)%6]}
+}
+
 func TestTree(t *testing.T) {
 	p := profile
 	if pbt.Tier() == "thorough" {
@@ -221,8 +228,15 @@ func TestTree(t *testing.T) {
 	}
 	pbt.Check(t, pbt.Cfg{Name: "tree", Quick: 1500, Thorough: 8000}, func(r *pbt.Run) {
 		c := sim.GenCase(r.T, p)
+		wide := rapid.IntRange(0, 9).Draw(r.T, "wide") == 0 && sim.AddWideBlock(r.T, &c)
 		r.Case(c)
-		s, err := sim.RunCaseOpen(c, env.Options{}, sim.Hooks{}, pbt.FindingOpen)
+		s, err := sim.RunCaseOpen(c, optsFor(c), sim.Hooks{}, pbt.FindingOpen)
+		if wide {
+			r.Class("block_spending_31..67_distinct_transactions")
+		}
+		if optsFor(c).MaxCached != 0 {
+			r.Class("block_cache_of_2..5_blocks")
+		}
 		if s != nil {
 			defer s.Close()
 			if s.Reorgs > 0 {
